@@ -183,6 +183,8 @@ SENTENCES = [
     "y ~ I ( a < b == c ) + g ( a == b != c , k = a + b * c )", "y ~ I ( a >= b < c <= d )", "y ~ f ( a + 1 > b == c - 2 )", "y ~ { a - b - c } + { a / b * c }",
     "y ~ f ( a ** b ** c , - a ** b ) : g ( a * b : c )",
     "y ~ f ( x , k = 2 ) + f ( x , k = 3 )", "y ~ f ( x , 2 ) + f ( x , 3 )", "y ~ f ( x , k = 's' ) : f ( x , k = 't' )", "y ~ f ( x , k = True ) + f ( x , k = False ) + ( 1 | g ( h , 1 ) ) + ( 1 | g ( h , 2 ) )",
+    "y ~ x + ( a | s ) + ( b | s ) + ( c | s ) + ( d | s ) + ( e | s ) + ( f | s ) + ( g | s ) + ( h | s ) + z",
+    "y ~ a + b + c + d + e + f + g + h + i + j + k + ( x | s ) + ( 1 | t )", "y ~ a : b + c : d + e : f + g + h + i + j + k + l + m + n + ( x | s )",
     "y ~ x [ ( a ) ]", "x [ ( 'a' ) ] ~ b", "y [ `a` ] ~ b", "y [ { a } ] ~ b", "y [ f ( a ) ] ~ b", "y ~ a + x [ ( ( b ) ) ]", "y [ - a ] ~ b", "y [ 1 ] ~ b",
     "y [ '' ] ~ a", 'y [ "" ] ~ a + f ( b , \'\' )', "y [ ' ' ] ~ a", "y [ 's' ] ~ f ( a , k = '' ) + f ( a , k = 's' )",
 ]
@@ -390,7 +392,7 @@ def check_case(case, acc):
     except Exception as e:
         problems.append(("paren-equal", f"{s!r} accepted but fully parenthesised {full!r} raised {type(e).__name__}: {e}"))
     sp = G.spans(tree)
-    if len(aug) <= 12:
+    if len(aug) <= 12 or case[0] == "s":
         variants = [G.paren(tree, aug, True, {x}) for x in sp] + [G.paren(tree, aug, True, set(sp))]
         # redundant parentheses on the original text (intercept inserted by the scanner as usual)
         tree0 = G.parse(toks)
@@ -403,7 +405,15 @@ def check_case(case, acc):
         for x in sp0:
             a, b = x
             if a == ins:
-                continue  # the scanner inserts the implicit "1 +" here: wrapping would re-bracket it (covered by the augmented variants)
+                # the scanner inserts the implicit "1 +" here: wrapping re-brackets it, which matters when the span removes or sets
+                # the intercept, or when its top-level operator binds looser than '+' ("1 + a | g" is "(1 + a) | g")
+                depth, loose = 0, False
+                for t in toks[a:b]:
+                    depth += t[0] in "([{"
+                    depth -= t[0] in ")]}"
+                    loose = loose or (depth == 0 and G.BIN_PREC.get(t[0], 9) < 4)
+                if loose or any(t[0] == "-" or (t[0] == "NUM" and t[1] in ("0", "1")) for t in toks[a:b]):
+                    continue
             orig.append(" ".join([t[1] for t in toks[:a]] + ["("] + [t[1] for t in toks[a:b]] + [")"] + [t[1] for t in toks[b:]]))
             orig.append(" ".join([t[1] for t in toks[:a]] + ["( ("] + [t[1] for t in toks[a:b]] + [") )"] + [t[1] for t in toks[b:]]))
         for v in dict.fromkeys(variants):
